@@ -221,4 +221,29 @@ def run(ctx):
     bad5 = sorted(set(s_[1] for s_ in sts5 if s_[1]))
     has_enable = any(e.kind == 'call' and e.q == SYS + '::enable_var' for eid in range(len(odv['elems'])) for e in A.view(odv).events_of(eid))
     ctx.check(bool(sts5) and has_enable and not bad5, 'R5', 'on_disabled_var reads the next element before enabling the current one', where(odv), bad5[0] if bad5 else '', key='R5|on_disabled_var|successor before enable')
+
+    # ---- R6 a recycled variable starts clean --------------------------------------------------------------------------------------------------------
+    ctx.rule('R6', 'lmm variables are recycled through a mallocator (their constructor runs once): Variable::initialize stores every arithmetic or pointer member of the class on every '
+             'path, so that nothing of the previous life of the object - a staged penalty in particular - survives', 6)
+    VQ = SYS.rsplit('::', 1)[0] + '::Variable'
+    vn = P.fn(SYS + '::variable_new')
+    vnv = A.view(vn)
+    recycled = any(e.kind == 'call' and 'mallocator' in e.q.lower() for eid in range(len(vn['elems'])) for e in vnv.events_of(eid))
+    ini = P.fn(VQ + '::initialize')
+    iv = A.view(ini)
+    skip = {'backtrace_': 'debug aid, has a default member initialiser and is deleted by var_free'}
+    members = [(n_, t_, q_) for n_, t_, q_ in lib.fields(P, VQ) if (t_.endswith('*') or t_ in ('double', 'int', 'unsigned int', 'unsigned', 'bool', 'long', 'unsigned long', 'float')) and 'hook' not in n_]
+    ctx.require(len(members) >= 6, 'R6', 'members of lmm::Variable not found (%d)' % len(members))
+    if not recycled:
+        ctx.holds('R6', 'variable_new does not take its objects from a mallocator: nothing to reset', where(vn), '')
+    else:
+        paths = [p for p in iv.paths() if p.exit not in ('noreturn', 'cut', 'throw')]
+        for n_, t_, q_ in members:
+            if n_ in skip:
+                ctx.holds('R6', 'Variable::%s: %s' % (n_, skip[n_]), where(ini), 'listed exception')
+                continue
+            ok = bool(paths) and all(any(e.kind == 'assign' and e.op == '=' and e.lhs == lib.this_field(q_) for e in iv.path_events(p)) for p in paths)
+            ctx.check(ok, 'R6', 'Variable::initialize stores %s' % n_, where(ini), '' if ok else
+                      'a recycled variable keeps the %s of the variable that owned the object before (a default member initialiser only acts when the object is constructed)' % n_,
+                      key='R6|initialize|%s' % n_)
     return EXPLANATION
